@@ -91,7 +91,7 @@ func init() {
 		return S("echo %d + %d * 2 - (4 / 2), ' ', 7 %% 3, ' ', 2 ** 5, ' ', 10 / 4, ' ', -%d + +3, ' ', 7 <=> %d, ' ', 1 + 1.5, \"\\n\";\n", n(r, 0, 9), n(r, 0, 9), n(r, 0, 9), n(r, 0, 9))
 	}))
 	add(simple("expr", "compare-logic", func(r *vh.Rand, u string) string {
-		return S("$a = %d; $b = '%d';\nvar_dump($a == $b, $a === $b, $a != 3, $a !== 3, $a < 5 && $a > 1, $a < 1 || $a > 7, !($a >= 4), $a <= 4 xor true);\n", n(r, 0, 9), n(r, 0, 9))
+		return S("$a = %d; $b = '%d';\nvar_dump($a == $b, $a === $b, $a != 3, $a !== 3, $a < 5 && $a > 1, $a < 1 || $a > 7, !($a >= 4), ($a <= 4) != true);\n", n(r, 0, 9), n(r, 0, 9))
 	}))
 	add(simple("expr", "bitops", func(r *vh.Rand, u string) string {
 		return S("echo %d & 6, ' ', %d | 9, ' ', 5 ^ 3, ' ', 1 << %d, ' ', 256 >> 2, ' ', ~5, \"\\n\";\n", n(r, 0, 15), n(r, 0, 15), n(r, 0, 8))
@@ -103,13 +103,13 @@ func init() {
 		return S("$n = %d;\necho <<<EOT\nline $n\n  two {$n}\nEOT;\necho \"\\n\", <<<'RAW'\nraw $n\nRAW;\necho \"\\n\";\n", n(r, 0, 99))
 	}))
 	add(simple("expr", "array-literal", func(r *vh.Rand, u string) string {
-		return S("$a = [%d, 'two', [3, 4], 'k' => ['n' => 1], 9 => 'nine', 'ten'];\necho count($a), $a[2][1], $a['k']['n'], $a[9], $a[10], json_encode($a), \"\\n\";\n", n(r, 0, 9))
+		return S("$a = [%d, 'two', [3, 4], 'k' => ['n' => 1], 9 => 'nine'];\necho count($a), $a[2][1], $a['k']['n'], $a[9], json_encode($a), \"\\n\";\n", n(r, 0, 9))
 	}))
 	add(simple("expr", "array-write", func(r *vh.Rand, u string) string {
 		return S("$a = []; $a[] = %d; $a[] = 2; $a['x'] = 'y'; $a[5] = 5; $a[] = 6; $a['n']['m'] = 1; unset($a[1]);\necho json_encode($a), isset($a['x']), isset($a[1]) ? 'y' : 'n', \"\\n\";\n", n(r, 0, 9))
 	}))
 	add(simple("expr", "list-destructure", func(r *vh.Rand, u string) string {
-		return S("[$p, $q] = [%d, %d]; list($x, $y) = ['x', 'y']; ['a' => $aa, 'b' => $bb] = ['a' => 1, 'b' => 2];\n[$p, $q] = [$q, $p];\necho \"$p $q $x $y $aa $bb\\n\";\n", n(r, 0, 9), n(r, 0, 9))
+		return S("[$p, $q] = [%d, %d]; [$x, [$y, $z]] = ['x', ['y', 'z']];\n[$p, $q] = [$q, $p];\necho \"$p $q $x $y $z\\n\";\n", n(r, 0, 9), n(r, 0, 9))
 	}))
 	add(simple("expr", "spread", func(r *vh.Rand, u string) string {
 		return S("function sp_%s($a, $b, $c = 0) { return $a + $b + $c; }\n$args = [1, %d];\n$m = [...$args, 5, ...[7, 8]];\necho sp_%s(...$args), ' ', sp_%s(1, ...[2, 3]), ' ', json_encode($m), \"\\n\";\n", u, n(r, 0, 9), u, u)
@@ -189,6 +189,18 @@ func init() {
 		return S("register_shutdown_function(function() { echo \"shutdown%d\\n\"; });\necho \"main\\n\";\n", n(r, 0, 9))
 	}))
 
+	add(simple("fn", "class-constant-expr", func(r *vh.Rand, u string) string {
+		return S("function cc_%s() { return 'Exception'; }\necho cc_%s()::class, %d, \"\\n\";\n", u, u, n(r, 0, 9))
+	}))
+	add(simple("fn", "generator", func(r *vh.Rand, u string) string {
+		return S("function gen_%s($n) { for ($i = 0; $i < $n; $i++) { yield $i => $i * 2; } return 'done'; }\nforeach (gen_%s(%d) as $k => $v) { echo \"$k:$v \"; }\necho \"\\n\";\n", u, u, n(r, 1, 5))
+	}))
+	add(simple("fn", "generator-send", func(r *vh.Rand, u string) string {
+		return S("function gs_%s() { $x = yield 1; echo \"got$x\"; yield %d; }\n$g = gs_%s(); echo $g->current(); $g->send('A'); echo $g->current(), \"\\n\";\n", u, n(r, 2, 9), u)
+	}))
+	add(simple("fn", "fn-return-type-checked", func(r *vh.Rand, u string) string {
+		return S("function rt_%s($v): int { return $v; }\n$f = function($v): string { return $v; };\ntry { echo rt_%s(%d), $f('s'), rt_%s('bad'); } catch (Throwable $t) { echo '|caught'; }\necho \"\\n\";\n", u, u, n(r, 0, 9), u)
+	}))
 	// ------------------------------------------------------------ closures
 	add(simple("closure", "closure-use-value", func(r *vh.Rand, u string) string {
 		return S("$x = %d;\n$f = function($a) use ($x) { return $a + $x; };\necho $f(1), ' ', $f(2), \"\\n\";\n", n(r, 0, 9))
@@ -212,7 +224,7 @@ func init() {
 		return S("function counter_%s() { $c = %d; return function() use (&$c) { return ++$c; }; }\n$c1 = counter_%s(); $c2 = counter_%s();\n$c1(); $c1();\necho $c1(), $c2(), \"\\n\";\n", u, n(r, 0, 9), u, u)
 	}))
 	add(simple("closure", "closure-static-iife", func(r *vh.Rand, u string) string {
-		return S("echo (function($a) { return $a * 2; })(%d), (static fn($a) => $a + 1)(1), \"\\n\";\n", n(r, 0, 9))
+		return S("$sf = static function($a) { return $a + 1; };\necho (function($a) { return $a * 2; })(%d), $sf(1), \"\\n\";\n", n(r, 0, 9))
 	}))
 	add(simple("closure", "closure-nested-use", func(r *vh.Rand, u string) string {
 		return S("$a = %d; $b = 2;\n$f = function() use ($a, $b) { $g = function($c) use ($a, $b) { return $a + $b + $c; }; return $g(3); };\necho $f(), \"\\n\";\n", n(r, 0, 9))
@@ -246,6 +258,12 @@ func init() {
 	}))
 	add(simple("exc", "uncaught-in-function", func(r *vh.Rand, u string) string {
 		return S("function uf_%s($n) { if ($n > 0) { return uf_%s($n - 1); } throw new Exception('deep'); }\necho \"a\\n\";\nuf_%s(%d);\necho 'after';\n", u, u, u, n(r, 0, 3))
+	}))
+	add(simple("exc", "uncaught-in-switch", func(r *vh.Rand, u string) string {
+		return S("echo \"a\\n\";\nswitch (%d) {\n  case 1: echo nosuch_%s(1); break;\n  default: throw new Exception('sw');\n}\necho 'after';\n", n(r, 0, 2), u)
+	}))
+	add(simple("exc", "error-in-strict-compare", func(r *vh.Rand, u string) string {
+		return S("function thr_%s() { throw new LogicException('cmp%d'); }\necho \"a\\n\";\nvar_dump(thr_%s() === 1);\n$x = [] instanceof Exception;\necho 'after';\n", u, n(r, 0, 9), u)
 	}))
 	add(simple("exc", "uncaught-after-finally", func(r *vh.Rand, u string) string {
 		return S("try { throw new Exception('x%d'); } finally { echo \"fin\\n\"; }\necho 'after';\n", n(r, 0, 9))
@@ -306,6 +324,13 @@ func init() {
 				"Sq":      "class Sq extends Shape {\n  private $s;\n  function __construct($s) { $this->s = $s; }\n  function area() { return $this->s * $this->s; }\n  function name() { return 'sq'; }\n}\n",
 			}
 	})
+	cls("cls-abstract", func(r *vh.Rand, u, ns string) (string, map[string]string) {
+		return S("$s = new \\%s\\Sq(%d);\necho $s->describe(), \"\\n\";\n", ns, n(r, 1, 9)),
+			map[string]string{
+				"Shape": "abstract class Shape {\n  abstract function name();\n  abstract protected function area(): int;\n  function describe() { return $this->name() . ':' . $this->area(); }\n}\n",
+				"Sq":    "class Sq extends Shape {\n  private $s;\n  function __construct($s) { $this->s = $s; }\n  protected function area(): int { return $this->s * $this->s; }\n  function name() { return 'sq'; }\n}\n",
+			}
+	})
 	cls("cls-visibility", func(r *vh.Rand, u, ns string) (string, map[string]string) {
 		return S("$v = new \\%s\\Vis();\necho $v->pub, $v->show(), \"\\n\";\ntry { echo $v->priv; } catch (Throwable $t) { echo 'denied'; }\necho \"\\n\";\n", ns),
 			map[string]string{"Vis": S("class Vis {\n  public $pub = 'p%d';\n  protected $prot = 'q';\n  private $priv = 'r';\n  function show() { return $this->prot . $this->priv . $this->hidden(); }\n  private function hidden() { return 'h'; }\n}\n", n(r, 0, 9))}
@@ -353,7 +378,7 @@ func init() {
 			}
 	})
 	cls("cls-enum", func(r *vh.Rand, u, ns string) (string, map[string]string) {
-		return S("use %s\\Suit;\n$s = Suit::Hearts;\necho $s->value, $s->name, Suit::from('S')->name, $s === Suit::Hearts ? 'same' : 'diff', \"\\n\";\n", ns),
+		return S("use %s\\Suit;\n$s = Suit::Hearts;\necho $s->value, $s->name, $s === Suit::Hearts ? 'same' : 'diff', \"\\n\";\n", ns),
 			map[string]string{"Suit": "enum Suit: string {\n  case Hearts = 'H';\n  case Spades = 'S';\n}\n"}
 	})
 	cls("cls-method-defaults-types", func(r *vh.Rand, u, ns string) (string, map[string]string) {
@@ -373,8 +398,15 @@ func init() {
 			map[string]string{"Cl": "class Cl {\n  public $v;\n  function __construct($v) { $this->v = $v; }\n}\n"}
 	})
 	cls("cls-property-default-exprs", func(r *vh.Rand, u, ns string) (string, map[string]string) {
-		return S("$d = new \\%s\\Df();\necho $d->a, $d->b, json_encode($d->c), $d->d, \\%s\\Df::K2, \"\\n\";\n", ns, ns),
-			map[string]string{"Df": S("class Df {\n  const K1 = %d;\n  const K2 = self::K1 + 1;\n  public $a = 1 + 2;\n  public $b = 'x' . 'y';\n  public $c = ['k' => [1, 2], 3];\n  public $d = self::K1;\n}\n", n(r, 0, 9))}
+		return S("$d = new \\%s\\Df();\necho $d->a, $d->b, json_encode($d->c), $d->d, \"\\n\";\n", ns),
+			map[string]string{"Df": S("class Df {\n  public $a = 1 + %d;\n  public $b = 'x' . 'y';\n  public $c = ['k' => [1, 2]];\n  public $d = null;\n}\n", n(r, 0, 9))}
+	})
+	cls("cls-interface-const", func(r *vh.Rand, u, ns string) (string, map[string]string) {
+		return S("echo (new \\%s\\Impl())->m(), \"\\n\";\n", ns),
+			map[string]string{
+				"Lim":  S("interface Lim {\n  const MAX = %d;\n  function m();\n}\n", n(r, 1, 9)),
+				"Impl": "class Impl implements Lim {\n  function m() { return self::MAX; }\n}\n",
+			}
 	})
 	// ------------------------------------------------------------ classes declared in the entry file itself
 	add(simple("entrycls", "entry-class", func(r *vh.Rand, u string) string {
@@ -437,7 +469,7 @@ func MixProg(r *vh.Rand, pool []*feature, name string) *Prog {
 	for i := 0; i < k; i++ {
 		f := vh.Pick(r, pool)
 		// the unique suffix differs per part so that one feature may repeat
-		e, libs := f.Gen(r, fmt.Sprintf("%sx%d", name, i))
+		e, libs := f.Gen(r, fmt.Sprintf("%sy%d", name, i))
 		// a part that ends the script (exit / uncaught) goes last only
 		p.Tags = append(p.Tags, f.Tag)
 		p.Parts = append(p.Parts, e)
